@@ -4,7 +4,7 @@ from unit import Unit
 import os
 MAXLEN = int(os.environ.get('VERIF_XML_MAXLEN', str(1 << 47)))   # harness assumption: the text is at most 2^47 bytes (x86-64 user address space)
 EXC = "EXC_std_runtime_error"
-GUARD = ["--unwind", "3", "--unwinding-assertions"]   # loops under contract are gone after instrumentation; this only bounds residual library loops (assertion-checked)
+GUARD = ["--unwind", "16", "--unwinding-assertions"]   # loops under contract are gone after instrumentation; this only bounds residual library loops (assertion-checked)
 CADICAL = ["--sat-solver", "cadical"]   # minisat needs >11 min on parseNode at 4096 bytes; cadical 45 s
 HELPERS = """
 char *g_buf, *g_end;   /* ghost: first byte of the text buffer, and the address of its NUL terminator */
@@ -76,14 +76,14 @@ def units():
     U.fn("x_parseProp", solver=CADICAL, pre_call=buffer(), requires=BUFOK + [VALID], assigns=["*$0", "*$1", "*$2"], ensures=dict(CUR_OK,
          property_consumes_at_least_one_byte_when_found="IMP(RET && __verif_exc == 0, __CPROVER_POINTER_OFFSET(*$0) > __CPROVER_POINTER_OFFSET(OLD(*$0)))",
          no_property_no_move="IMP(!RET && __verif_exc == 0, *$0 == OLD(*$0))"))
-    U.fn("x_parseNode", rec=True, timeout=1500, solver=CADICAL, pre_call=buffer(), requires=BUFOK + [VALID], assigns=["*$0"], ghost_entry=["char *g_entry = *$0;"],
+    U.fn("x_parseNode", rec=True, timeout=1500, solver=CADICAL, flags=GUARD, pre_call=buffer(), requires=BUFOK + [VALID], assigns=["*$0"], ghost_entry=["char *g_entry = *$0;"],
          loops={1: dict(assigns=["*s", "name", "value", "node", "__verif_exc"], invariant=[LV("*s"), "__verif_exc == 0", "__CPROVER_POINTER_OFFSET(*s) > __CPROVER_POINTER_OFFSET(g_entry)"], decreases=DIST("*s")),
                 2: dict(assigns=["*s", "node", "__verif_exc"], invariant=[LV("*s"), "__verif_exc == 0", "__CPROVER_POINTER_OFFSET(*s) > __CPROVER_POINTER_OFFSET(g_entry)"], decreases=DIST("*s")),
                 3: dict(assigns=["*s"], invariant=[LV("*s"), "__CPROVER_POINTER_OFFSET(*s) >= __CPROVER_POINTER_OFFSET(begin)"], decreases=DIST("*s")),
                 4: dict(assigns=["end"], invariant=[LV("end"), "__CPROVER_POINTER_OFFSET(end) > __CPROVER_POINTER_OFFSET(g_entry)"], decreases="__CPROVER_POINTER_OFFSET(end)")},
          ensures=dict(CUR_OK, a_node_consumes_at_least_its_opening_bracket="IMP(__verif_exc == 0, __CPROVER_POINTER_OFFSET(*$0) > __CPROVER_POINTER_OFFSET(OLD(*$0)))",
                       only_runtime_error_escapes="__verif_exc == 0 || __verif_exc == %s" % EXC))
-    U.fn("x_parseHeader", solver=CADICAL, pre_call=buffer(), requires=BUFOK + [VALID], assigns=["*$0"],
+    U.fn("x_parseHeader", solver=CADICAL, flags=GUARD, pre_call=buffer(), requires=BUFOK + [VALID], assigns=["*$0"],
          loops={1: dict(assigns=["*s", "name", "value", "__verif_exc"], invariant=[LV("*s"), "__verif_exc == 0"], decreases=DIST("*s"))},
          ensures=dict(CUR_OK, only_runtime_error_escapes="__verif_exc == 0 || __verif_exc == %s" % EXC))
     docbuf = """
@@ -91,7 +91,7 @@ def units():
   g_buf = (char *)verif_malloc(in_len + 1); g_end = g_buf + in_len; *g_end = 0;
   p_s = g_buf;
 """ % MAXLEN
-    U.fn("x_parseXML", solver=CADICAL, pre_call=docbuf, arrays={"s": 1}, ptr_requires=False, requires=BUFOK + ["__CPROVER_r_ok($0, sizeof(*$0))", "$1 == g_buf"], assigns=["*$0"],
+    U.fn("x_parseXML", solver=CADICAL, flags=GUARD, pre_call=docbuf, arrays={"s": 1}, ptr_requires=False, requires=BUFOK + ["__CPROVER_r_ok($0, sizeof(*$0))", "$1 == g_buf"], assigns=["*$0"],
          loops={1: dict(assigns=["s", "*doc", "__verif_exc"], invariant=[LV("s"), "__verif_exc == 0"], decreases=DIST("s"))},
          ensures={"parseXML_returns_a_document_or_throws_runtime_error": "__verif_exc == 0 || __verif_exc == %s" % EXC})
     return [U]
